@@ -68,7 +68,7 @@ def twin(sc, op):
         if op == "dedupe":
             for e in r.trace.main("ficlone"):
                 rel = ops.relw(rd, e.path)
-                if e.ret == 0 and rel is not None and ops.TEMP_RE.match(rel) is None and b2s(rel) not in drop:
+                if e.ret == 0 and rel is not None and rel in b and b2s(rel) not in drop:
                     drop.append(b2s(rel))
         return sorted(drop), ops.processed_count(r)
 
